@@ -1023,3 +1023,399 @@ Proof.
   split; [exact J1|]. split; [destruct J2 as (A1 & A2 & A3); repeat split; assumption|].
   intros e He. apply S4, J3, He.
 Qed.
+
+(* ---- what the batch of a PDR contains (the statement's text): the sessions entry under (N3 address, TEID) resp. the UE
+   address, the terminations entry under (UE address, application id) with the action the FAR and the related QER give,
+   the applications entry of the PDR's filter when one is due *)
+Definition related_qer (p : Agent.pdr) (qers : list Agent.qer) : qer :=
+  match find_app_qer p qers with Some y => to_qer y | None => zero_qer end.
+Definition related_qfi (p : Agent.pdr) (qers : list Agent.qer) : N :=
+  match find_app_qer p qers with Some y => Agent.q_qfi y | None => default_qfi end.
+Definition peer_id_of (f : Agent.far) (x : up4) : N :=
+  match peer_get (Agent.a_tdst f) (Agent.a_tport f) (u_peers x) with Some pe => pe_id pe | None => 0 end.
+
+Lemma batch_content c ty fars qers r xr es :
+  batch_of c ty fars qers r xr es ->
+  let p := rp_pdr r in
+  exists f ue ae app_id sidx aidx,
+    find_far (Agent.p_far p) fars = Some f /\ Agent.p_prec p <= max_uint16 /\
+    (peer_get (Agent.a_tdst f) (Agent.a_tport f) (u_peers xr) <> None \/ Agent.a_teid f = 0) /\
+    (ae = None \/ ae = Some (n_application (to_pdr r ue) (cf_slice c) app_id)) /\
+    (app_filter_empty (to_pdr r ue) = true -> ae = None /\ app_id = 0) /\
+    ((is_uplink r = true /\ m_get (Agent.p_fseid p) (u_f2ue xr) = Some ue /\
+      es = pdr_batch (n_session_uplink (to_pdr r (Agent.p_ue p)) sidx) ae
+                     (n_termination_uplink ue (to_pdr r ue) aidx (far_drops (to_far f)) app_id
+                                           (tc_of c (qr_qfi (related_qer p qers))) (related_qer p qers))) \/
+     (is_downlink r = true /\ ue = Agent.p_ue p /\
+      es = pdr_batch (n_session_downlink (to_pdr r (Agent.p_ue p)) sidx (peer_id_of f xr) (far_buffers (to_far f))) ae
+                     (n_termination_downlink ue (to_pdr r ue) aidx (to_far f) app_id (related_qfi p qers)
+                                             (tc_of c (qr_qfi (related_qer p qers))) (related_qer p qers)))).
+Proof.
+  intros (f & se & ue & x1 & ae & app_id & te & H1 & H2 & H3 & ->). cbn zeta.
+  unfold pdr_pre in H1. destruct (max_uint16 <? Agent.p_prec (rp_pdr r)) eqn:Ep; [discriminate|]. apply N.ltb_ge in Ep.
+  destruct (find_far _ fars) as [f0|] eqn:Ef; [|discriminate].
+  assert (Hpeer : peer_get (Agent.a_tdst f0) (Agent.a_tport f0) (u_peers xr) <> None \/ Agent.a_teid f0 = 0).
+  { destruct (peer_get _ _ _); [left; discriminate|]. destruct (Agent.a_teid f0 =? 0) eqn:E; [right; apply N.eqb_eq; exact E | discriminate]. }
+  assert (Hpre : exists sess, n_session (to_pdr r (Agent.p_ue (rp_pdr r))) sess (peer_id_of f0 xr) (far_buffers (to_far f0)) = Some se /\
+                              (if is_uplink r then m_get (Agent.p_fseid (rp_pdr r)) (u_f2ue xr) else Some (Agent.p_ue (rp_pdr r))) = Some ue /\ f = f0).
+  { unfold peer_id_of. destruct (peer_get _ _ _); destruct (Agent.a_teid f0 =? 0); try discriminate;
+      (destruct (n_session _ _ _ _) as [se0|] eqn:E; [|discriminate]);
+      (destruct (if is_uplink r then _ else _) eqn:Eu; [|discriminate]); inversion H1; subst; eexists; eauto. }
+  destruct Hpre as (sess & Hse & Hue & ->). clear H1.
+  assert (Hae : (ae = None \/ ae = Some (n_application (to_pdr r ue) (cf_slice c) app_id)) /\
+                (app_filter_empty (to_pdr r ue) = true -> ae = None /\ app_id = 0)).
+  { split.
+    - destruct ae as [a|]; [right; f_equal; eapply app_step_entry; eauto | left; reflexivity].
+    - intros He. unfold app_step in H2. rewrite He in H2. inv_pairs. auto. }
+  destruct Hae as [Ha1 Ha2].
+  unfold pdr_term in H3. fold (related_qer (rp_pdr r) qers) in H3. fold (related_qfi (rp_pdr r) qers) in H3.
+  fold (tc_of c (qr_qfi (related_qer (rp_pdr r) qers))) in H3.
+  unfold n_session in Hse. unfold n_termination in H3. unfold is_uplink, is_downlink in *.
+  change (pd_src_iface (to_pdr r (Agent.p_ue (rp_pdr r)))) with (Agent.p_iface (rp_pdr r)) in Hse.
+  change (pd_src_iface (to_pdr r ue)) with (Agent.p_iface (rp_pdr r)) in H3.
+  destruct (Agent.p_iface (rp_pdr r) =? access) eqn:Ea.
+  - inversion Hse; inversion H3; subst. exists f0, ue, ae, app_id, (mc_ul sess). eexists.
+    split; [reflexivity|]. split; [exact Ep|]. split; [exact Hpeer|]. split; [exact Ha1|]. split; [exact Ha2|]. left. repeat split; auto.
+  - destruct (Agent.p_iface (rp_pdr r) =? core) eqn:Ec; [|discriminate].
+    inversion Hse; inversion H3; inversion Hue; subst. exists f0, (Agent.p_ue (rp_pdr r)), ae, app_id, (mc_dl sess). eexists.
+    split; [reflexivity|]. split; [exact Ep|]. split; [exact Hpeer|]. split; [exact Ha1|]. split; [exact Ha2|]. right. repeat split; auto.
+Qed.
+
+(* ================================================================== Part 6: reference sets of tunnel peers *)
+Definition far_uses (dst port : N) (f : Agent.far) : bool := needs_peer f && (Agent.a_tdst f =? dst) && (Agent.a_tport f =? port).
+(* the live FARs that denote the GTP peer (dst, port): forward to access with an outer header *)
+Definition users_of (live : list Agent.far) (dst port : N) : list ref := map fref (filter (far_uses dst port) live).
+Definition used_of (ps : list peer) (dst port : N) : list ref := match peer_get dst port ps with Some p => pe_used p | None => [] end.
+Definition peers_wf (ps : list peer) : Prop :=
+  forall p, In p ps -> pe_used p <> [] /\ peer_get (pe_dst p) (pe_port p) ps = Some p.
+Definition refcount_ok (x : up4) (live : list Agent.far) : Prop :=
+  peers_wf (u_peers x) /\ forall dst port r, In r (used_of (u_peers x) dst port) <-> In r (users_of live dst port).
+
+Lemma set_add_in a l r : In r (set_add a l) <-> r = a \/ In r l.
+Proof.
+  unfold set_add. destruct (existsb (ref_eqb a) l) eqn:E.
+  - apply existsb_exists in E. destruct E as [y [H1 H2]]. apply ref_eqb_eq in H2. subst. split; [auto|intros [->|H]; auto].
+  - rewrite in_app_iff. cbn. split; [intros [H|[H|[]]]; auto | intros [->|H]; auto].
+Qed.
+Lemma set_del_in a l r : In r (set_del a l) <-> r <> a /\ In r l.
+Proof.
+  unfold set_del. rewrite filter_In. split.
+  - intros [H1 H2]. split; [|exact H1]. intros ->. rewrite (proj2 (ref_eqb_eq a a) eq_refl) in H2. discriminate.
+  - intros [H1 H2]. split; [exact H2|]. destruct (ref_eqb a r) eqn:E; [apply ref_eqb_eq in E; congruence | reflexivity].
+Qed.
+
+Definition same_peer_key (d p d' p' : N) : bool := (d =? d') && (p =? p').
+Lemma peer_is_key d p q : peer_is d p q = same_peer_key (pe_dst q) (pe_port q) d p.
+Proof. reflexivity. Qed.
+
+Lemma peer_is_trans d0 p0 d p q : peer_is d0 p0 q = true -> peer_is d p q = true -> same_peer_key d0 p0 d p = true.
+Proof.
+  unfold peer_is, same_peer_key. rewrite !andb_true_iff, !N.eqb_eq. intros [A1 A2] [B1 B2]. split; congruence.
+Qed.
+Lemma peer_is_cong d0 p0 d p q : same_peer_key d0 p0 d p = true -> peer_is d0 p0 q = peer_is d p q.
+Proof. unfold peer_is, same_peer_key. rewrite andb_true_iff, !N.eqb_eq. intros [-> ->]. reflexivity. Qed.
+
+Lemma peer_get_del d p d0 p0 l : peer_get d p (peer_del d0 p0 l) = if same_peer_key d0 p0 d p then None else peer_get d p l.
+Proof.
+  unfold peer_get, peer_del. induction l as [|q l IH]; cbn [filter find]; [destruct (same_peer_key d0 p0 d p); reflexivity|].
+  destruct (peer_is d0 p0 q) eqn:E0; cbn [negb find].
+  - rewrite IH. destruct (same_peer_key d0 p0 d p) eqn:Ek; [reflexivity|].
+    destruct (peer_is d p q) eqn:E1; [|reflexivity]. rewrite (peer_is_trans _ _ _ _ _ E0 E1) in Ek. discriminate.
+  - destruct (peer_is d p q) eqn:E1; [|exact IH]. destruct (same_peer_key d0 p0 d p) eqn:Ek; [|reflexivity].
+    rewrite (peer_is_cong _ _ _ _ q Ek), E1 in E0. discriminate.
+Qed.
+Lemma peer_is_self y : peer_is (pe_dst y) (pe_port y) y = true.
+Proof. unfold peer_is. rewrite !N.eqb_refl. reflexivity. Qed.
+
+Lemma peer_get_app d p l1 l2 : peer_get d p (l1 ++ l2) = match peer_get d p l1 with Some q => Some q | None => peer_get d p l2 end.
+Proof. unfold peer_get. induction l1 as [|q l IH]; cbn; [reflexivity|]. destruct (peer_is d p q); auto. Qed.
+Lemma peer_get_put d p q l : peer_get d p (peer_put q l) = if same_peer_key (pe_dst q) (pe_port q) d p then Some q else peer_get d p l.
+Proof.
+  unfold peer_put. rewrite peer_get_app, peer_get_del. destruct (same_peer_key (pe_dst q) (pe_port q) d p) eqn:E.
+  - unfold peer_get. cbn. rewrite peer_is_key, E. reflexivity.
+  - destruct (peer_get d p l); [reflexivity|]. unfold peer_get. cbn. rewrite peer_is_key, E. reflexivity.
+Qed.
+Lemma peer_get_replace d p d0 p0 q l : pe_dst q = d0 -> pe_port q = p0 ->
+  peer_get d p (map (fun y => if peer_is d0 p0 y then q else y) l) =
+    if same_peer_key d0 p0 d p then (match peer_get d p l with Some _ => Some q | None => None end) else peer_get d p l.
+Proof.
+  intros Hd Hp. unfold peer_get. induction l as [|y l IH]; cbn [map find]; [destruct (same_peer_key d0 p0 d p); reflexivity|].
+  destruct (peer_is d0 p0 y) eqn:E0.
+  - rewrite peer_is_key, Hd, Hp. destruct (same_peer_key d0 p0 d p) eqn:Ek.
+    + rewrite <- (peer_is_cong _ _ _ _ y Ek), E0. reflexivity.
+    + destruct (peer_is d p y) eqn:E1; [rewrite (peer_is_trans _ _ _ _ _ E0 E1) in Ek; discriminate | exact IH].
+  - destruct (peer_is d p y) eqn:E1.
+    + destruct (same_peer_key d0 p0 d p) eqn:Ek; [|reflexivity]. rewrite (peer_is_cong _ _ _ _ y Ek), E1 in E0. discriminate.
+    + exact IH.
+Qed.
+Lemma peer_get_key d p l q : peer_get d p l = Some q -> pe_dst q = d /\ pe_port q = p /\ In q l.
+Proof.
+  unfold peer_get. intros H. apply find_some in H. destruct H as [H1 H2]. unfold peer_is in H2. apply andb_true_iff in H2.
+  destruct H2 as [A B]. apply N.eqb_eq in A, B. auto.
+Qed.
+Lemma same_peer_key_eq d p d' p' : same_peer_key d p d' p' = true <-> d = d' /\ p = p'.
+Proof. unfold same_peer_key. rewrite andb_true_iff, !N.eqb_eq. tauto. Qed.
+
+Lemma write_bk us x x' cs : write us x = (x', cs) -> u_peers x' = u_peers x /\ u_peer_pool x' = u_peer_pool x.
+Proof. intros W. apply write_sw in W. destruct W as [-> _]. split; reflexivity. Qed.
+
+(* addOrUpdateGTPTunnelPeer that succeeds: the peer of the FAR's outer header gains the FAR, nothing else changes *)
+Lemma add_or_update_peer_used c f x x' log :
+  add_or_update_peer c f x = (x', log, ROk) -> peers_wf (u_peers x) ->
+  peers_wf (u_peers x') /\
+  forall d p, used_of (u_peers x') d p =
+              if same_peer_key (Agent.a_tdst f) (Agent.a_tport f) d p then set_add (fref f) (used_of (u_peers x) d p) else used_of (u_peers x) d p.
+Proof.
+  unfold add_or_update_peer. intros H Hwf.
+  destruct (peer_get (Agent.a_tdst f) (Agent.a_tport f) (u_peers x)) as [q|] eqn:Eq.
+  - destruct (write _ _) as [x2 cs] eqn:W in H. destruct (all_ok cs); [|inv_pairs]. inv_pairs.
+    apply write_bk in W. destruct W as [W1 W2]. cbn [u_peers with_peers] in *. rewrite W1.
+    set (q' := Peer (Agent.a_tdst f) (Agent.a_tport f) (pe_id q) (set_add (fref f) (pe_used q))).
+    set (l1 := map (fun y => if peer_is (Agent.a_tdst f) (Agent.a_tport f) y then q' else y) (u_peers x)).
+    assert (G : forall d p, peer_get d p (peer_put q' l1) =
+                            if same_peer_key (Agent.a_tdst f) (Agent.a_tport f) d p then Some q' else peer_get d p (u_peers x)).
+    { intros d p. rewrite peer_get_put. change (pe_dst q') with (Agent.a_tdst f); change (pe_port q') with (Agent.a_tport f). destruct (same_peer_key _ _ d p) eqn:Ek; [reflexivity|].
+      unfold l1. rewrite (peer_get_replace d p (Agent.a_tdst f) (Agent.a_tport f) q' _ eq_refl eq_refl), Ek. reflexivity. }
+    split.
+    + intros y Hy. unfold peer_put in Hy. apply in_app_or in Hy. destruct Hy as [Hy|[<-|[]]].
+      * unfold peer_del in Hy. apply filter_In in Hy. destruct Hy as [Hy1 Hy2]. unfold l1 in Hy1. apply in_map_iff in Hy1.
+        destruct Hy1 as [z [Hz1 Hz2]]. destruct (peer_is _ _ z) eqn:Ez.
+        { subst y. rewrite (peer_is_self q') in Hy2. discriminate. }
+        subst z. destruct (Hwf y Hz2) as [U1 U2]. split; [exact U1|]. rewrite G.
+        destruct (same_peer_key _ _ (pe_dst y) (pe_port y)) eqn:Ek; [|exact U2].
+        rewrite (peer_is_cong _ _ _ _ y Ek), peer_is_self in Ez. discriminate.
+      * split; [cbn; intros Hn; assert (In (fref f) []) as [] by (rewrite <- Hn; apply set_add_in; auto)|].
+        rewrite G. change (pe_dst q') with (Agent.a_tdst f); change (pe_port q') with (Agent.a_tport f). unfold same_peer_key. rewrite !N.eqb_refl. reflexivity.
+    + intros d p. unfold used_of. rewrite G. destruct (same_peer_key _ _ d p) eqn:Ek; [|reflexivity].
+      apply same_peer_key_eq in Ek. destruct Ek as [<- <-]. rewrite Eq. reflexivity.
+  - destruct (u_peer_pool x) as [|id pool]; [inv_pairs|].
+    destruct (write _ _) as [x2 cs] eqn:W in H. destruct (all_ok cs); [|inv_pairs]. inv_pairs.
+    apply write_bk in W. destruct W as [W1 W2]. cbn [u_peers with_peers] in *. rewrite W1.
+    set (q' := Peer (Agent.a_tdst f) (Agent.a_tport f) id [fref f]).
+    split.
+    + intros y Hy. unfold peer_put in Hy. apply in_app_or in Hy. destruct Hy as [Hy|[<-|[]]].
+      * unfold peer_del in Hy. apply filter_In in Hy. destruct Hy as [Hy1 Hy2]. destruct (Hwf y Hy1) as [U1 U2]. split; [exact U1|].
+        rewrite peer_get_put. change (pe_dst q') with (Agent.a_tdst f); change (pe_port q') with (Agent.a_tport f). destruct (same_peer_key _ _ (pe_dst y) (pe_port y)) eqn:Ek; [|exact U2].
+        change (pe_dst q') with (Agent.a_tdst f) in Hy2. change (pe_port q') with (Agent.a_tport f) in Hy2.
+        rewrite (peer_is_cong _ _ _ _ y Ek), peer_is_self in Hy2. discriminate.
+      * split; [cbn; discriminate|]. rewrite peer_get_put. change (pe_dst q') with (Agent.a_tdst f); change (pe_port q') with (Agent.a_tport f). unfold same_peer_key. rewrite !N.eqb_refl. reflexivity.
+    + intros d p. unfold used_of. rewrite peer_get_put. change (pe_dst q') with (Agent.a_tdst f); change (pe_port q') with (Agent.a_tport f). destruct (same_peer_key _ _ d p) eqn:Ek; [|reflexivity].
+      apply same_peer_key_eq in Ek. destruct Ek as [<- <-]. rewrite Eq. reflexivity.
+Qed.
+
+Lemma users_of_in live d p r : In r (users_of live d p) <-> exists g, In g live /\ far_uses d p g = true /\ r = fref g.
+Proof.
+  unfold users_of. rewrite in_map_iff. split.
+  - intros [g [H1 H2]]. apply filter_In in H2. destruct H2. exists g. auto.
+  - intros [g [H1 [H2 H3]]]. exists g. split; [auto|apply filter_In; auto].
+Qed.
+
+Lemma far_uses_key d p f : far_uses d p f = true -> same_peer_key (Agent.a_tdst f) (Agent.a_tport f) d p = true.
+Proof. unfold far_uses, same_peer_key. rewrite !andb_true_iff. tauto. Qed.
+
+Lemma update_peers_refcount c : forall fs x log x' log' live,
+  update_peers c fs x log = (x', log', ROk) -> refcount_ok x live -> refcount_ok x' (live ++ fs).
+Proof.
+  induction fs as [|f fs IH]; intros x log x' log' live H Hr; cbn in H.
+  - inv_pairs. rewrite app_nil_r. exact Hr.
+  - replace (live ++ f :: fs) with ((live ++ [f]) ++ fs) by (rewrite <- app_assoc; reflexivity).
+    destruct (needs_peer f) eqn:En.
+    + destruct (add_or_update_peer c f x) as [[x1 l1] rs] eqn:E. destruct rs; try (inv_pairs; fail).
+      eapply IH; [exact H|]. destruct Hr as [Hwf Hu]. destruct (add_or_update_peer_used _ _ _ _ _ E Hwf) as [W U].
+      split; [exact W|]. intros d p r. rewrite U, users_of_in.
+      destruct (same_peer_key (Agent.a_tdst f) (Agent.a_tport f) d p) eqn:Ek.
+      * rewrite set_add_in, Hu, users_of_in. split.
+        -- intros [->|[g [G1 [G2 G3]]]].
+           ++ exists f. split; [apply in_or_app; right; left; reflexivity|]. split; [|reflexivity].
+              unfold far_uses. rewrite En. exact Ek.
+           ++ exists g. split; [apply in_or_app; left; exact G1 | auto].
+        -- intros [g [G1 [G2 G3]]]. apply in_app_or in G1. destruct G1 as [G1|[<-|[]]]; [right; exists g; auto | left; exact G3].
+      * rewrite Hu, users_of_in. split.
+        -- intros [g [G1 [G2 G3]]]. exists g. split; [apply in_or_app; left; exact G1 | auto].
+        -- intros [g [G1 [G2 G3]]]. apply in_app_or in G1. destruct G1 as [G1|[<-|[]]]; [exists g; auto|].
+           apply far_uses_key in G2. congruence.
+    + eapply IH; [exact H|]. destruct Hr as [Hwf Hu]. split; [exact Hwf|]. intros d p r. rewrite Hu, !users_of_in. split.
+      * intros [g [G1 [G2 G3]]]. exists g. split; [apply in_or_app; left; exact G1 | auto].
+      * intros [g [G1 [G2 G3]]]. apply in_app_or in G1. destruct G1 as [G1|[<-|[]]]; [exists g; auto|].
+        unfold far_uses in G2. rewrite En in G2. discriminate.
+Qed.
+
+(* removeGTPTunnelPeer: the peer of the FAR's outer header loses the FAR (and disappears when nobody is left) *)
+Lemma remove_peer_used c f x x' log :
+  remove_peer c f x = (x', log) -> peers_wf (u_peers x) ->
+  peers_wf (u_peers x') /\
+  forall d p, used_of (u_peers x') d p =
+              if same_peer_key (Agent.a_tdst f) (Agent.a_tport f) d p then set_del (fref f) (used_of (u_peers x) d p) else used_of (u_peers x) d p.
+Proof.
+  unfold remove_peer. intros H Hwf.
+  destruct (peer_get (Agent.a_tdst f) (Agent.a_tport f) (u_peers x)) as [q|] eqn:Eq.
+  - set (q' := Peer (Agent.a_tdst f) (Agent.a_tport f) (pe_id q) (set_del (fref f) (pe_used q))) in *.
+    set (l1 := map (fun y => if peer_is (Agent.a_tdst f) (Agent.a_tport f) y then q' else y) (u_peers x)) in *.
+    assert (G : forall d p, peer_get d p l1 = if same_peer_key (Agent.a_tdst f) (Agent.a_tport f) d p then Some q' else peer_get d p (u_peers x)).
+    { intros d p. unfold l1. rewrite (peer_get_replace d p (Agent.a_tdst f) (Agent.a_tport f) q' _ eq_refl eq_refl).
+      destruct (same_peer_key _ _ d p) eqn:Ek; [|reflexivity]. apply same_peer_key_eq in Ek. destruct Ek as [<- <-]. rewrite Eq. reflexivity. }
+    assert (Wl1 : forall y, In y l1 -> y = q' \/ (In y (u_peers x) /\ peer_is (Agent.a_tdst f) (Agent.a_tport f) y = false)).
+    { intros y Hy. unfold l1 in Hy. apply in_map_iff in Hy. destruct Hy as [z [Hz1 Hz2]].
+      destruct (peer_is _ _ z) eqn:Ez; [left; auto | right; subst; auto]. }
+    destruct (set_del (fref f) (pe_used q)) as [|u us] eqn:Eu.
+    + destruct (write _ _) as [x2 cs] eqn:W in H. inv_pairs. apply write_bk in W. destruct W as [W1 W2].
+      cbn [u_peers with_peers] in *. rewrite W1. fold l1. split.
+      * intros y Hy. unfold peer_del in Hy. apply filter_In in Hy. destruct Hy as [Hy1 Hy2]. destruct (Wl1 y Hy1) as [->|[Hy3 Hy4]].
+        { assert (Hq : peer_is (Agent.a_tdst f) (Agent.a_tport f) q' = true) by (apply (peer_is_self q')). rewrite Hq in Hy2. discriminate. }
+        destruct (Hwf y Hy3) as [U1 U2]. split; [exact U1|]. rewrite peer_get_del, G.
+        destruct (same_peer_key _ _ (pe_dst y) (pe_port y)) eqn:Ek; [|exact U2].
+        rewrite (peer_is_cong _ _ _ _ y Ek), peer_is_self in Hy4. discriminate.
+      * intros d p. unfold used_of. rewrite peer_get_del, G. destruct (same_peer_key _ _ d p) eqn:Ek; [|reflexivity].
+        apply same_peer_key_eq in Ek. destruct Ek as [<- <-]. rewrite Eq. symmetry. exact Eu.
+    + inv_pairs. cbn [u_peers with_peers]. fold l1. split.
+      * intros y Hy. destruct (Wl1 y Hy) as [->|[Hy3 Hy4]].
+        { split; [unfold q'; cbn; discriminate|]. rewrite G. change (pe_dst q') with (Agent.a_tdst f). change (pe_port q') with (Agent.a_tport f).
+          unfold same_peer_key. rewrite !N.eqb_refl. reflexivity. }
+        destruct (Hwf y Hy3) as [U1 U2]. split; [exact U1|]. rewrite G.
+        destruct (same_peer_key _ _ (pe_dst y) (pe_port y)) eqn:Ek; [|exact U2].
+        rewrite (peer_is_cong _ _ _ _ y Ek), peer_is_self in Hy4. discriminate.
+      * intros d p. unfold used_of. rewrite G. destruct (same_peer_key _ _ d p) eqn:Ek; [|reflexivity].
+        apply same_peer_key_eq in Ek. destruct Ek as [<- <-]. rewrite Eq. symmetry. exact Eu.
+  - inv_pairs. split; [exact Hwf|]. intros d p. destruct (same_peer_key _ _ d p) eqn:Ek; [|reflexivity].
+    apply same_peer_key_eq in Ek. destruct Ek as [<- <-]. unfold used_of. rewrite Eq. reflexivity.
+Qed.
+
+Definition drop_ref (r : ref) (live : list Agent.far) : list Agent.far := filter (fun g => negb (ref_eqb (fref g) r)) live.
+Definition sole_holder (live : list Agent.far) (f : Agent.far) : Prop := forall g, In g live -> fref g = fref f -> g = f.
+
+Lemma remove_peer_refcount c f x x' log live :
+  remove_peer c f x = (x', log) -> refcount_ok x live -> sole_holder live f -> refcount_ok x' (drop_ref (fref f) live).
+Proof.
+  intros H [Hwf Hu] Hs. destruct (remove_peer_used _ _ _ _ _ H Hwf) as [W U]. split; [exact W|].
+  intros d p r. rewrite U, users_of_in.
+  assert (Hd : forall g, In g (drop_ref (fref f) live) <-> In g live /\ fref g <> fref f).
+  { intros g. unfold drop_ref. rewrite filter_In. split; intros [A B]; split; auto.
+    - intros E. rewrite (proj2 (ref_eqb_eq _ _) E) in B. discriminate.
+    - destruct (ref_eqb (fref g) (fref f)) eqn:E; [apply ref_eqb_eq in E; contradiction | reflexivity]. }
+  destruct (same_peer_key (Agent.a_tdst f) (Agent.a_tport f) d p) eqn:Ek.
+  - rewrite set_del_in, Hu, users_of_in. split.
+    + intros [Hn [g [G1 [G2 G3]]]]. exists g. split; [apply Hd; split; [exact G1 | congruence] | auto].
+    + intros [g [G1 [G2 G3]]]. apply Hd in G1. destruct G1 as [G1 G4]. split; [congruence | exists g; auto].
+  - rewrite Hu, users_of_in. split.
+    + intros [g [G1 [G2 G3]]]. exists g. split; [|auto]. apply Hd. split; [exact G1|]. intros E.
+      rewrite (Hs g G1 E) in G2. apply far_uses_key in G2. congruence.
+    + intros [g [G1 [G2 G3]]]. apply Hd in G1. exists g. tauto.
+Qed.
+
+Definition drop_refs (fs live : list Agent.far) : list Agent.far := fold_left (fun l f => drop_ref (fref f) l) fs live.
+Lemma drop_ref_incl r live g : In g (drop_ref r live) -> In g live.
+Proof. unfold drop_ref. intros H. apply filter_In in H. tauto. Qed.
+
+Lemma remove_peers_refcount c : forall fs x log x' log' live,
+  remove_peers c fs x log = (x', log') -> refcount_ok x live -> (forall f, In f fs -> sole_holder live f) ->
+  refcount_ok x' (drop_refs fs live).
+Proof.
+  induction fs as [|f fs IH]; intros x log x' log' live H Hr Hs; cbn in H; [inv_pairs; exact Hr|].
+  destruct (remove_peer c f x) as [x1 l1] eqn:E. cbn [drop_refs fold_left]. eapply IH; [exact H| |].
+  - eapply remove_peer_refcount; [exact E | exact Hr | apply Hs; left; reflexivity].
+  - intros f' Hf' g Hg. apply Hs; [right; exact Hf' | eapply drop_ref_incl; exact Hg].
+Qed.
+
+(* ---- the stages that do not touch the tunnel-peer bookkeeping *)
+Lemma write_peers us x x' cs : write us x = (x', cs) -> u_peers x' = u_peers x.
+Proof. intros W. apply write_bk in W. tauto. Qed.
+Lemma alloc_counters_peers : forall n i all x orc log x' all' orc' log' r,
+  alloc_counters n i all x orc log = (x', all', orc', log', r) -> u_peers x' = u_peers x.
+Proof.
+  induction n as [|n IH]; intros i all x orc log x' all' orc' log' r H; cbn in H; [inv_pairs; reflexivity|].
+  destruct (pop (u_ctr_pool x) orc) as [k pool orc1| |]; [|inv_pairs; reflexivity|inv_pairs; reflexivity].
+  destruct (set_ctr i k all) as [all1|]; [|inv_pairs; reflexivity].
+  destruct (write (counter_reset k) (with_ctr_pool x pool)) as [x2 cs] eqn:W. apply write_peers in W. cbn in W.
+  destruct (all_ok cs); [rewrite (IH _ _ _ _ _ _ _ _ _ _ H); exact W | inv_pairs; exact W].
+Qed.
+Lemma configure_app_meter_peers bidir x orc x' orc' log' cells r :
+  configure_app_meter bidir x orc = (x', orc', log', cells, r) -> u_peers x' = u_peers x.
+Proof.
+  unfold configure_app_meter. intros H.
+  destruct (pop (u_app_cells x) orc) as [ul pool1 orc1| |]; [|inv_pairs; reflexivity|inv_pairs; reflexivity].
+  destruct bidir.
+  - destruct (pop pool1 orc1) as [dl pool2 orc2| |]; [|inv_pairs; reflexivity|inv_pairs; reflexivity].
+    destruct (write _ _) as [x3 cs] eqn:W in H. apply write_peers in W. cbn in W. destruct (all_ok cs); inv_pairs; exact W.
+  - destruct (write _ _) as [x3 cs] eqn:W in H. apply write_peers in W. cbn in W. destruct (all_ok cs); inv_pairs; exact W.
+Qed.
+Lemma configure_session_meter_peers x orc x' orc' log' cells r :
+  configure_session_meter x orc = (x', orc', log', cells, r) -> u_peers x' = u_peers x.
+Proof.
+  unfold configure_session_meter. intros H.
+  destruct (pop (u_sess_cells x) orc) as [ul pool1 orc1| |]; [|inv_pairs; reflexivity|inv_pairs; reflexivity].
+  destruct (pop pool1 orc1) as [dl pool2 orc2| |]; [|inv_pairs; reflexivity|inv_pairs; reflexivity].
+  destruct (write _ _) as [x3 cs] eqn:W in H. apply write_peers in W. cbn in W. destruct (all_ok cs); inv_pairs; exact W.
+Qed.
+Lemma configure_meters_loop_peers single : forall qs x orc log x' orc' log' r,
+  configure_meters_loop single qs x orc log = (x', orc', log', r) -> u_peers x' = u_peers x.
+Proof.
+  induction qs as [|q qs IH]; intros x orc log x' orc' log' r H; cbn in H; [inv_pairs; reflexivity|].
+  destruct (Agent.q_level q =? app_qos).
+  - destruct (configure_app_meter single x orc) as [[[[x1 orc1] l1] cells] rs] eqn:E. apply configure_app_meter_peers in E.
+    destruct rs; [destruct cells as [[ul dl]|]; [rewrite (IH _ _ _ _ _ _ _ H); exact E | inv_pairs; exact E] | inv_pairs; exact E ..].
+  - destruct (Agent.q_level q =? session_qos); [|eapply IH; eauto].
+    destruct (configure_session_meter x orc) as [[[[x1 orc1] l1] cells] rs] eqn:E. apply configure_session_meter_peers in E.
+    destruct rs; [destruct cells as [[ul dl]|]; [rewrite (IH _ _ _ _ _ _ _ H); exact E | inv_pairs; exact E] | inv_pairs; exact E ..].
+Qed.
+Lemma reset_meter_peers q x x' log' : reset_meter q x = (x', log') -> u_peers x' = u_peers x.
+Proof.
+  unfold reset_meter. intros H. destruct (mtr_get _ _ _) as [m|]; [|inv_pairs; reflexivity].
+  destruct (mt_type m =? meter_type_app).
+  - destruct (write _ _) as [x1 cs] eqn:W in H. apply write_peers in W. inv_pairs. exact W.
+  - destruct (mt_type m =? meter_type_session).
+    + destruct (write _ _) as [x1 cs] eqn:W in H. apply write_peers in W. inv_pairs. exact W.
+    + inv_pairs. reflexivity.
+Qed.
+Lemma reset_meters_peers : forall qs x log x' log', reset_meters qs x log = (x', log') -> u_peers x' = u_peers x.
+Proof.
+  induction qs as [|q qs IH]; intros x log x' log' H; cbn in H; [inv_pairs; reflexivity|].
+  destruct (reset_meter q x) as [x1 l1] eqn:E. rewrite (IH _ _ _ _ H). eapply reset_meter_peers; eauto.
+Qed.
+Lemma fold_ue_update_peers rs : forall x, u_peers (fold_left ue_update rs x) = u_peers x.
+Proof. induction rs as [|r rs IH]; intros x; cbn; [reflexivity|]. rewrite IH. unfold ue_update. destruct (is_uplink r); reflexivity. Qed.
+Lemma fold_ue_remove_peers rs : forall x, u_peers (fold_left ue_remove rs x) = u_peers x.
+Proof. induction rs as [|r rs IH]; intros x; cbn; [reflexivity|]. rewrite IH. unfold ue_remove. destruct (is_uplink r); reflexivity. Qed.
+
+Lemma refcount_ok_peers x y live : u_peers y = u_peers x -> refcount_ok x live -> refcount_ok y live.
+Proof. unfold refcount_ok. intros ->. auto. Qed.
+
+(* accepted establishment: every FAR of the message that forwards to access with an outer header is now a user of its peer *)
+Lemma create_refcount c all upd x orc x' log all' live :
+  send_create c all upd x orc = (x', Out ROk log all') -> refcount_ok x live -> refcount_ok x' (live ++ r_fars upd).
+Proof.
+  unfold send_create. intros H Hr.
+  destruct (alloc_counters _ _ _ _ _ _) as [[[[x1 pdrs1] orc1] log1] r1] eqn:E1. destruct r1; try (inv_pairs; fail).
+  destruct (configure_meters _ _ _ _) as [[[x3 orc3] log3] r3] eqn:E3. unfold configure_meters in E3. destruct r3; try (inv_pairs; fail).
+  destruct (update_peers _ _ _ _) as [[x4 log4] r4] eqn:E4. destruct r4; try (inv_pairs; fail).
+  destruct (modify_cfg _ _ _ _ _ _ _) as [[x5 log5] r5] eqn:E5. inv_pairs.
+  destruct (modify_cfg_insert _ _ _ _ _ _ _ _ E5) as ((P5 & _) & _).
+  apply (refcount_ok_peers x4 x' _ P5). eapply update_peers_refcount; [exact E4|].
+  apply (refcount_ok_peers x x3); [|exact Hr].
+  rewrite (configure_meters_loop_peers _ _ _ _ _ _ _ _ _ E3), fold_ue_update_peers. eapply alloc_counters_peers; eauto.
+Qed.
+
+(* accepted deletion: the deleted FARs are no longer users; a peer nobody uses any more is gone *)
+Lemma delete_refcount c del x x' log all' live :
+  send_delete c del x = (x', Out ROk log all') -> refcount_ok x live -> (forall f, In f (r_fars del) -> sole_holder live f) ->
+  refcount_ok x' (drop_refs (r_fars del) live).
+Proof.
+  unfold send_delete. intros H Hr Hs.
+  destruct (modify_cfg _ _ _ _ _ _ _) as [[x2 log2] r2] eqn:E2. destruct r2; try (inv_pairs; fail).
+  destruct (reset_meters _ _ _) as [x3 log3] eqn:E3. destruct (remove_peers _ _ _ _) as [x4 log4] eqn:E4. inv_pairs.
+  destruct (modify_cfg_delete _ _ _ _ _ _ _ _ E2) as ((P2 & _) & _).
+  apply (refcount_ok_peers x4); [apply fold_ue_remove_peers|].
+  eapply remove_peers_refcount; [exact E4| |exact Hs].
+  apply (refcount_ok_peers x); [|exact Hr]. rewrite (reset_meters_peers _ _ _ _ _ E3). exact P2.
+Qed.
+
+(* an entry of the bookkeeping exists exactly for the peers some live FAR denotes *)
+Lemma refcount_present x live d p : refcount_ok x live -> (peer_get d p (u_peers x) <> None <-> users_of live d p <> []).
+Proof.
+  intros [Hwf Hu]. split.
+  - intros Hn Hl. destruct (peer_get d p (u_peers x)) as [q|] eqn:E; [|congruence].
+    destruct (peer_get_key _ _ _ _ E) as (K1 & K2 & K3). destruct (Hwf q K3) as [U _].
+    destruct (pe_used q) as [|r rs] eqn:Eq; [congruence|].
+    assert (In r (users_of live d p)) by (apply Hu; unfold used_of; rewrite E, Eq; left; reflexivity). rewrite Hl in H. destruct H.
+  - intros Hl Hn. destruct (users_of live d p) as [|r rs] eqn:E; [congruence|].
+    assert (In r (used_of (u_peers x) d p)) by (apply Hu; rewrite E; left; reflexivity). unfold used_of in H. rewrite Hn in H. destruct H.
+Qed.
